@@ -50,6 +50,7 @@ type Case struct {
 	Idle    int    // seconds
 	Abs     bool   // AbsoluteTimeout 1h configured
 	Conn    bool   `json:",omitempty"` // all requests arrive on one keep-alive connection (one server-side RequestCtx)
+	Inner   bool   `json:",omitempty"` // store API only: used in a middleware in front of an unrelated session middleware
 	Ops     []ReqOp
 }
 
@@ -153,13 +154,19 @@ func check(c Case) vk.Verdict {
 		})
 	} else {
 		store = session.NewStore(cfg)
-		app.Get("/", func(ctx fiber.Ctx) error {
+		storeHandler := func(ctx fiber.Ctx) error {
 			sess, err := store.Get(ctx)
 			if err != nil {
 				handlerErr = err.Error()
 				return nil
 			}
 			defer sess.Release()
+			if c.Inner {
+				// the rest of the chain - an unrelated session middleware and its handler - runs first
+				if err := ctx.Next(); err != nil {
+					handlerErr = err.Error()
+				}
+			}
 			runScript(sess)
 			for _, s := range script {
 				if s.Op == "destroy" {
@@ -175,7 +182,21 @@ func check(c Case) vk.Verdict {
 				}
 			}
 			return nil
-		})
+		}
+		if c.Inner {
+			// the store API in an outer middleware, in front of a session middleware with another store, another
+			// cookie and its own storage: the two must not influence each other
+			app.Use(storeHandler)
+			app.Use(session.New(session.Config{KeyLookup: "cookie:inner_session"}))
+			app.Get("/", func(ctx fiber.Ctx) error {
+				if m := session.FromContext(ctx); m != nil {
+					m.Set("inner", "x")
+				}
+				return nil
+			})
+		} else {
+			app.Get("/", storeHandler)
+		}
 	}
 	var ka *vk.KeepAlive
 	if c.Conn {
@@ -473,6 +494,7 @@ func check(c Case) vk.Verdict {
 func genCase(t *rapid.T) Case {
 	c := Case{API: rapid.SampledFrom([]string{"middleware", "store"}).Draw(t, "api"), Source: rapid.SampledFrom([]string{"cookie", "header", "query"}).Draw(t, "source"),
 		Storage: rapid.SampledFrom([]string{"vk", "vk-retain", "memory"}).Draw(t, "storage"), Idle: rapid.SampledFrom([]int{2, 5, 60}).Draw(t, "idle"), Abs: rapid.IntRange(0, 3).Draw(t, "abs") == 0, Conn: rapid.IntRange(0, 2).Draw(t, "conn") == 0}
+	c.Inner = c.API == "store" && rapid.IntRange(0, 2).Draw(t, "inner") == 0
 	n := rapid.IntRange(1, 25).Draw(t, "nops")
 	for i := 0; i < n; i++ {
 		switch k := rapid.IntRange(0, 11).Draw(t, "kind"); {
